@@ -98,6 +98,14 @@ def check_graph(label, g, log, base_values, res, rep, runner_name, rng):
             gu = gb.unbind(k)
             if k not in effective_inputs(gu, kw).required:
                 problems.append(f"{cname}: after unbind({k}) the name is not required again")
+            # ... and the runner agrees (derived graphs are validated against their own spec, whatever ran before)
+            part = {kk: v for kk, v in supplied.items() if kk != k}
+            ob = run(gb, part, max_iterations=50, **kw)
+            if ob["status"] == "raised" and "MissingInputError" in (ob["error"] or ""):
+                problems.append(f"{cname}: after bind({k}) a run without '{k}' was rejected: {ob['error']}")
+            ou = run(gu, part, max_iterations=50, **kw)
+            if not (ou["status"] == "raised" and "MissingInputError" in (ou["error"] or "")):
+                problems.append(f"{cname}: after bind({k}).unbind({k}) a run without '{k}' was accepted: {ou['status']}")
         for pb in problems:
             res.fail(kind="oracle", function="compute_input_spec / validate_inputs / run template", what=f"[{label}] {pb}", runner=runner_name, replay=rep)
 
